@@ -131,6 +131,7 @@ REVERTS = {
     "revert-go-json-tag": ("d148e36", ["C15", "C19"]),
     "revert-eof-line": ("3628257", ["C20", "C08"]),
     "revert-lint-lower-digits": ("637f4dd", ["C20"]),
+    "revert-empty-filter": ("3e7be02", ["C17"]),
 }
 for _n, (_c, _p) in REVERTS.items():
     CATALOGUE[_n] = (_p, [("@revert", _c, "")], f"revert of fix {_c}")
